@@ -113,9 +113,12 @@ def add_cycle(rng, d):
     return False
 
 
-def gen_case(rng, big=False):
-    d = lib.rand_dag(rng, rng.randint(1, 4), rng.randint(1, 9 if big else 7), max_fanin=3, p_const=0.3, consts=("0", "1", "x"),
-                     p_out=rng.choice([0.1, 0.3, 0.5]))
+def gen_case(rng, big=False, huge=False):
+    if huge:        # thorough tier only: a few circuits of 25-40 nodes (size-dependent behaviour)
+        d = lib.rand_dag(rng, rng.randint(3, 6), rng.randint(18, 28), max_fanin=4, p_const=0.3, consts=("0", "1", "x"), p_out=0.15)
+    else:
+        d = lib.rand_dag(rng, rng.randint(1, 4), rng.randint(1, 9 if big else 7), max_fanin=3, p_const=0.3, consts=("0", "1", "x"),
+                         p_out=rng.choice([0.1, 0.3, 0.5]))
     if rng.random() < 0.3:
         d = lib.add_flop(rng, d, unconnected=rng.random() < 0.15)
     names = {n[0] for n in d["nodes"]}
@@ -159,7 +162,10 @@ def handmade():
 
 def generate(rng, tier):
     n = 230 if tier == "quick" else 1500
-    return handmade() + [gen_case(rng, big=(i % 5 == 0)) for i in range(n)]
+    out = handmade() + [gen_case(rng, big=(i % 5 == 0)) for i in range(n)]
+    if tier != "quick":
+        out += [gen_case(rng, huge=True) for _ in range(40)]
+    return out
 
 
 def impl(case):
